@@ -41,18 +41,16 @@ Combine(rs) ==
   IF \E i \in DOMAIN rs : IsUnknown(rs[i]) THEN Unknown
   ELSE IF AllOk(rs) THEN Ok(Vals(rs)) ELSE FirstErr(rs)
 
-Nullable(f) == \/ FType(f)[1] \in {"opt", "any", "none"}
-               \/ (FDflt(f)[1] = "val" /\ IsNone(FDflt(f)[2]))
-
 RECURSIVE Unpack(_, _, _)
+RECURSIVE UnpackB(_, _, _)
 RECURSIVE FromDict(_, _, _)
 RECURSIVE UnpackUnion(_, _, _)
 RECURSIVE UnpackLiteral(_, _, _, _)
 
-UnpackSeq(E, cx, js) == Combine([i \in DOMAIN js |-> Unpack(E, cx, js[i])])
+UnpackSeq(E, cx, js) == Combine([i \in DOMAIN js |-> Unpack(E, ElemCx(cx), js[i])])
 UnpackPairs(K, V, cx, ps) ==
-  LET ks == Combine([i \in DOMAIN ps |-> Unpack(K, cx, ps[i][1])])
-      vs == Combine([i \in DOMAIN ps |-> Unpack(V, cx, ps[i][2])])
+  LET ks == Combine([i \in DOMAIN ps |-> Unpack(K, ElemCx(cx), ps[i][1])])
+      vs == Combine([i \in DOMAIN ps |-> Unpack(V, ElemCx(cx), ps[i][2])])
       \* evaluation order is key1, value1, key2, value2 ...; only ok/err matters here
   IN  IF IsUnknown(ks) \/ IsUnknown(vs) THEN Unknown
       ELSE IF ~IsOk(ks) THEN ks ELSE IF ~IsOk(vs) THEN vs
@@ -112,7 +110,8 @@ FromDict(T, cx, j) ==
   LET fs   == DcFields(T)
       ifs  == InitFields(T)
       name == DcName(T)
-      ncx  == cx
+      ncx  == [NestCx(T, cx) EXCEPT !.levels = ClassLevels(T, cx)]
+      fcx(f) == [ncx EXCEPT !.fopt = FOpts(f)]
   IN
   IF ifs = <<>> THEN Ok(<<"obj", name, [i \in DOMAIN fs |-> DefaultOf(fs[i])]>>)
   ELSE IF j[1] # "dict" THEN Err(<<"ValueError">>)
@@ -126,7 +125,7 @@ FromDict(T, cx, j) ==
                THEN IF FDflt(f)[1] = "req" THEN Err(<<"Missing", FName(f), name>>) ELSE Ok(DefaultOf(f))
                ELSE LET raw == PairsGet(ps, k) IN
                     IF IsNone(raw) /\ Nullable(f) THEN Ok(None)
-                    ELSE LET r == Unpack(FType(f), ncx, raw) IN
+                    ELSE LET r == Unpack(FType(f), fcx(f), raw) IN
                          IF IsOk(r) \/ IsUnknown(r) THEN r ELSE Err(<<"Invalid", FName(f), raw, name>>)
         rs == [i \in DOMAIN fs |-> fres(fs[i])]
     IN  IF GetOpt(DcCfg(T), "forbid_extra_keys", FALSE) /\ extra # {}
@@ -142,7 +141,14 @@ Wrap2Nt(T, r) ==
   ELSE LET fs == T[3] n == Len(r[2]) IN
        Ok(<<"nt", T[2], [i \in DOMAIN fs |-> IF i <= n THEN r[2][i] ELSE fs[i][3][2]]>>)
 
+\* exactly one customisation level applies (C10); with none the built-in conversion UnpackB is used
 Unpack(T, cx, j) ==
+  LET w == Winner(T, cx, "deser") IN
+  IF w = <<"#builtin">> THEN UnpackB(T, cx, j)
+  ELSE IF w[1] = "pass_through" THEN Ok(j)
+  ELSE Ok(S("D" \o w[2]))
+
+UnpackB(T, cx, j) ==
   CASE T[1] \in {"int", "float", "bool", "str"} -> Leafy(T[1], j)
     [] T[1] = "none" -> Ok(None)
     [] T[1] = "any" -> Ok(j)
@@ -162,16 +168,16 @@ Unpack(T, cx, j) ==
          LET ix == IndexableOf(j) IN
          IF ~IsOk(ix) THEN ix
          ELSE IF Len(ix[2]) < Len(T[2]) THEN Err("short")
-         ELSE Wrap("tuple", Combine([i \in DOMAIN T[2] |-> Unpack(T[2][i], cx, ix[2][i])]))
+         ELSE Wrap("tuple", Combine([i \in DOMAIN T[2] |-> Unpack(T[2][i], ElemCx(cx), ix[2][i])]))
     [] T[1] = "utuple" ->
          LET ix == IndexableOf(j) p == Len(T[2]) q == Len(T[4]) IN
          IF ~IsOk(ix) THEN ix
          ELSE LET n == Len(ix[2]) IN
               IF n < p + q THEN Err("short")
               ELSE Wrap("tuple", Combine([i \in 1..n |->
-                     IF i <= p THEN Unpack(T[2][i], cx, ix[2][i])
-                     ELSE IF i > n - q THEN Unpack(T[4][i - (n - q)], cx, ix[2][i])
-                     ELSE Unpack(T[3], cx, ix[2][i])]))
+                     IF i <= p THEN Unpack(T[2][i], ElemCx(cx), ix[2][i])
+                     ELSE IF i > n - q THEN Unpack(T[4][i - (n - q)], ElemCx(cx), ix[2][i])
+                     ELSE Unpack(T[3], ElemCx(cx), ix[2][i])]))
     [] T[1] \in {"dict", "mapping", "mmapping"} -> MapLike("dict", T[2], T[3], cx, j)
     [] T[1] = "odict" -> MapLike("OrderedDict", T[2], T[3], cx, j)
     [] T[1] = "ddict" -> MapLike("defaultdict", T[2], T[3], cx, j)
@@ -187,12 +193,12 @@ Unpack(T, cx, j) ==
          THEN IF j[1] # "dict" THEN Err("ntdict")
               ELSE LET fs == T[3] IN
                    IF \E i \in DOMAIN fs : ~PairsHas(j[2], S(fs[i][1])) THEN Err("ntmissing")
-                   ELSE Wrap2Nt(T, Combine([i \in DOMAIN fs |-> Unpack(fs[i][2], cx, PairsGet(j[2], S(fs[i][1])))]))
+                   ELSE Wrap2Nt(T, Combine([i \in DOMAIN fs |-> Unpack(fs[i][2], ElemCx(cx), PairsGet(j[2], S(fs[i][1])))]))
          ELSE LET ix == IndexableOf(j) fs == T[3] IN
               IF ~IsOk(ix) THEN ix
               ELSE LET n == Min2(Len(ix[2]), Len(fs)) IN
                    IF n < Len(fs) /\ fs[n + 1][3][1] = "req" THEN Err("ntmissing")
-                   ELSE Wrap2Nt(T, Combine([i \in 1..n |-> Unpack(fs[i][2], cx, ix[2][i])]))
+                   ELSE Wrap2Nt(T, Combine([i \in 1..n |-> Unpack(fs[i][2], ElemCx(cx), ix[2][i])]))
     [] T[1] = "tdict" ->
          IF j[1] # "dict" THEN Err("tdict")
          ELSE LET fs == T[3]
@@ -201,7 +207,7 @@ Unpack(T, cx, j) ==
                   opt == SelectSeq([i \in DOMAIN fs |-> i], LAMBDA i : ~fs[i][3] /\ PairsHas(j[2], S(fs[i][1])))
                   order == req \o opt
               IN  IF missing # {} THEN Err("tdmissing")
-                  ELSE LET c == Combine([k \in DOMAIN order |-> Unpack(fs[order[k]][2], cx, PairsGet(j[2], S(fs[order[k]][1])))]) IN
+                  ELSE LET c == Combine([k \in DOMAIN order |-> Unpack(fs[order[k]][2], ElemCx(cx), PairsGet(j[2], S(fs[order[k]][1])))]) IN
                        IF IsOk(c) THEN Ok(Dct([k \in DOMAIN order |-> <<S(fs[order[k]][1]), c[2][k]>>])) ELSE c
     [] T[1] = "opt" -> IF IsNone(j) THEN Ok(None) ELSE Unpack(T[2], cx, j)
     [] T[1] = "union" -> UnpackUnion(T[2], cx, j)
